@@ -16,6 +16,18 @@ Streams
   order      direct oracle, in-process: the value set / name set that Script.infer / goto turn into
              Name objects is handed over in every (sampled) iteration order; the ordered result
              lists must be equal (goto: as sets)
+  dictkeys   the real strings._completions_for_dicts (+ _get_python_keys, _create_repr_string,
+             _get_string_prefix_and_quote) on stand-ins for inferred dict values (keys of every safe-value
+             type, shared keys, non-dicts, keys without a safe value, every way to open a literal after the
+             bracket) vs Model.Determinism.completionsForDicts with the sorts where the translator found
+             them; direct oracle on the real function: the dicts in another order -> same completions
+  keyorder   direct oracle for completions that come out of a UNION of inferred values: subscript
+             completion (`d[`, `d['`, `d["k`, `d[1` ...) on a name with 2..4 dict values (gen/c16_dictkeys.py:
+             branch returns, parameter with several call sites, conditional expression, loop over a list
+             of dicts, subscripted call, attribute assigned twice): complete() under every forced
+             iteration order of the value set (ForceOrder also hooks api/strings.py), on fresh Scripts of
+             one process with allocations in between, and in sessions on one Script; the same programs
+             also go through stream subproc
   subproc    direct oracle: the same queries in fresh subprocesses under several PYTHONHASHSEED
              values and with allocation noise before the import; ordered result lists must be equal
   session    direct oracle: permutations / repetitions of up to 8 queries on one Script (including
@@ -104,9 +116,18 @@ MANIFEST = dict(
          'memo holding a materialised container or the (generator, list) pair of the generator cache answers every '
          'reader the same (materialised_memo_replayable, generator_cache_replayable), one holding the generator '
          'itself does not (one_shot_memo_not_replayable); '
+         'the dict keys that complete() offers in a subscript (put in front of the result as they come out of '
+         'api/strings.py) are the same, in the same order, for every iteration order of the identity-hashed set of '
+         'inferred values, because the keys of ALL dicts are sorted together where they are consumed '
+         '(dict_keys_sorted_together_transcribed over the translator\'s reading of _completions_for_dicts / '
+         '_get_python_keys / Completion.complete; dict_completions_perm_invariant FULL, '
+         'dict_completions_src_perm_invariant; kernel-checked witness dict_completions_order_dependent_with_per_dict_sort: '
+         'a sort per dict is not enough; single_dict_hides_where_the_sort_is: on one dict both agree; '
+         'dict_completions_nodup); '
          'on acyclic dependency graphs the memoised evaluator answers independently of earlier queries '
          '(memo_order_independent_acyclic; 2-cycle witness). Tie: translator + correspondence on real Name '
-         'objects and real primitives + direct oracles (hash seeds, iteration orders, query permutations).',
+         'objects, real primitives and the real dict-key completion functions + direct oracles (hash seeds, '
+         'iteration orders of inferred value sets for infer / goto / subscript completion, query permutations).',
     note='Modelled not verified: CPython set/frozenset iteration order (universally quantified in the '
          'theorems, sampled by the oracles), which values inference produces, memo contents of real queries.',
     technique='Lean 4 proof over hand-written model + translator-generated constants + differential correspondence',
@@ -765,15 +786,26 @@ class Ordered:
 
 
 class ForceOrder:
-    """makes Script.infer / Script.goto see the inferred values / names in the order `pick(items)`"""
+    """makes Script.infer / Script.goto see the inferred values / names in the order `pick(items)`, and
+    Script.complete the values whose dict keys it offers in a subscript (api/strings.py:complete_dict)"""
     def __init__(self, pick):
         self.pick = pick
         self.sizes = []
 
     def __enter__(self):
         import jedi.api as api
+        from jedi.api import strings
         self.api = api
+        self.strings = strings
         self.old = (api.convert_values, api.convert_names)
+        self.old_call_of_leaf = strings.infer_call_of_leaf
+
+        def call_of_leaf(*a, **kw):
+            # the values whose dict keys strings.complete_dict turns into the prefixed completions
+            r = list(self.old_call_of_leaf(*a, **kw))
+            self.sizes.append(len(r))
+            return Ordered(self.pick(r))
+        strings.infer_call_of_leaf = call_of_leaf
 
         def conv_values(values, **kw):
             r = list(self.old[0](values, **kw))
@@ -789,11 +821,14 @@ class ForceOrder:
 
     def __exit__(self, *a):
         self.api.convert_values, self.api.convert_names = self.old
+        self.strings.infer_call_of_leaf = self.old_call_of_leaf
 
 
 def stable_key(v):
     n = v.name if hasattr(v, 'name') else v
-    return (str(getattr(n, 'start_pos', None)), type(v).__name__, getattr(n, 'string_name', ''))
+    atom = getattr(v, 'atom', None)         # a dict / list literal: where it stands in the source
+    return (str(getattr(n, 'start_pos', None)), type(v).__name__, getattr(n, 'string_name', ''),
+            getattr(atom, 'start_pos', None) or (0, 0))
 
 
 def stream_order(ctx):
@@ -874,6 +909,169 @@ def stream_eqclass(ctx):
                          how=how)
 
 
+# ----------------------------------------------------------------- stream: dictkeys / keyorder
+
+class FakeKeyValue:
+    """one value of `dct.get_key_values()`"""
+    NO_SAFE_VALUE = object()
+
+    def __init__(self, v):
+        self.v = v
+
+    def get_safe_value(self, default=None):
+        return default if self.v is self.NO_SAFE_VALUE else self.v
+
+
+class FakeDictValue:
+    def __init__(self, array_type, keys):
+        self.array_type = array_type
+        self.keys = keys
+
+    def get_key_values(self):
+        return iter([FakeKeyValue(k) for k in self.keys])
+
+
+class _FakeInferenceState:
+    builtins_module = None        # AbstractArbitraryName.__init__ reads it (parent_context of the name)
+
+
+DK_LITERALS = ['', '', "'", '"', "'k", '"k', "'a", "b'", 'r"', "'''", '"""k', 'k', '1', "rb'", "f'ho", 'é"']
+DK_KEYS = ['host', 'port', 'user', 'debug', 'k0', 'k1', 'ka', 'kb', 'a', 'ab', 'b', 'K', "it's", 'say "x"', 'x y', 'é',
+           '', 'bk', "b'", 'back\\slash', 'tab\t', 0, 1, 2, 9, 10, 11, 100, -1, 1.5, -0.0, b'q', b'k1', b"it's", b'',
+           True, None, 10 ** 20]
+
+
+def real_dict_completions(literal, cut, dicts):
+    """the real strings._completions_for_dicts over stand-ins for dict values, in the given order"""
+    from jedi.api import strings
+    vals = [FakeDictValue(d['array_type'], [FakeKeyValue.NO_SAFE_VALUE if k is None else k[0] for k in d['keys']])
+            for d in dicts]
+    try:
+        return [c.name for c in strings._completions_for_dicts(_FakeInferenceState, Ordered(vals), literal, cut, fuzzy=False)]
+    except Exception as e:
+        return ['EXC', type(e).__name__]
+
+
+def _show_dicts(ds):
+    return [{'array_type': d['array_type'], 'keys': [None if k is None else repr(k[0]) for k in d['keys']]} for d in ds]
+
+
+def stream_dictkeys(ctx, reqs):
+    """the real strings._completions_for_dicts / _get_python_keys / _create_repr_string /
+    _get_string_prefix_and_quote on synthetic dict values (keys of all safe-value types, dicts that
+    share keys, non-dict values in between, keys without a safe value; every way a literal can be
+    opened after the bracket) vs Model.Determinism.completionsForDicts; direct oracle on the real
+    function: the dicts handed over in another order give the same completions in the same order"""
+    rng = ctx.subrng('dictkeys')
+    cases = []
+    for i in range(ctx.size(500, 8000)):
+        pool = rng.sample(DK_KEYS, rng.randint(2, 8))
+        dicts = []
+        for _ in range(rng.choice([0, 1, 2, 2, 2, 3, 3, 4])):
+            keys = []
+            for _ in range(rng.choice([0, 1, 2, 2, 3, 4])):
+                k = rng.choice(pool)
+                # a key is shipped as [value]; None = no safe value (the sentinel)
+                keys.append(None if rng.random() < 0.08 else [k])
+            dicts.append({'array_type': 'dict' if rng.random() < 0.9 else rng.choice(['list', 'tuple', 'set']),
+                          'keys': keys})
+        literal = rng.choice(DK_LITERALS)
+        q = [x for x in ('"""', "'''", '"', "'") if x in literal][:1]
+        cut = q[0] if q and rng.random() < 0.5 else ''
+        impl = real_dict_completions(literal, cut, dicts)
+        case = {'literal_string': literal, 'cut_end_quote': cut, 'dicts': _show_dicts(dicts)}
+        cases.append((('dictkeys', case), impl))
+        reqs.append({'op': 'dictkeys', 'literal': literal, 'cut': cut,
+                     'dicts': [{'dict': d['array_type'] == 'dict', 'keys': d['keys']} for d in case['dicts']]})
+        # direct oracle: any order of the (identity-hashed) set of dicts
+        perms = [dicts[::-1]] + [rng.sample(dicts, len(dicts)) for _ in range(2)] if len(dicts) > 1 else []
+        for perm in perms:
+            other = real_dict_completions(literal, cut, perm)
+            if other != impl:
+                ctx.fail('dictkeys', 'the dict key completions (their order) depend on the iteration order of the set of '
+                         'inferred dicts', {'literal_string': literal, 'cut_end_quote': cut, 'dicts': case['dicts'],
+                                            'other_order': _show_dicts(perm)},
+                         expected=impl, observed={'difference': 'order differs' if sorted(impl) == sorted(other)
+                                                  else 'different completions', 'other_order_gives': other},
+                         how='[c.name for c in jedi.api.strings._completions_for_dicts(state, dicts, literal_string, '
+                             'cut_end_quote, fuzzy=False)] with stand-ins for the dict values (array_type, '
+                             'get_key_values() -> objects with get_safe_value); see harness/props/c16.py:real_dict_completions')
+                break
+    return cases
+
+
+KEYORDER_HOW = ('jedi.Script(source, project=<empty directory>).complete(line, column) (a) under '
+                'harness/props/c16.py:ForceOrder(pick): the values whose dict keys are offered (result of '
+                'infer_call_of_leaf in api/strings.py:complete_dict, a ValueSet hashed by object identity) are iterated in '
+                'the order pick(values); (b) without any hook on fresh Scripts with allocations in between')
+
+
+def dictkey_programs(rng, n):
+    from gen import c16_dictkeys as DK
+    specs = [('dictkeys-fixed-%d' % i, sp) for i, sp in enumerate(DK.fixed_specs())]
+    for i in range(n):
+        specs.append(('dictkeys-%d' % i, DK.gen_spec(rng)))
+    return [(label, sp) + DK.build(sp) for label, sp in specs]
+
+
+def stream_keyorder(ctx, cap, pcache):
+    """direct oracle for completions that come out of a union of inferred values (subscript
+    completion on a name with several dict values, gen/c16_dictkeys.py): the same complete() under
+    every forced iteration order of the value set, on fresh Scripts with allocation noise in between,
+    and again on one Script with other queries (also failing ones) in between"""
+    rng = ctx.subrng('keyorder')
+    junk = []
+    probed = set()
+    for label, spec, src, (line, col) in dictkey_programs(rng, ctx.size(10, 300)):
+        mk = EmptyProject(pcache.dir, src)
+        case = {'label': label, 'source': src, 'query': 'complete', 'line': line, 'column': col,
+                'empty_project': True}
+        orders = [('sorted', lambda r: sorted(r, key=stable_key)), ('reversed', lambda r: sorted(r, key=stable_key)[::-1])]
+        if len(spec['dicts']) > 2:
+            sub = ctx.subrng('keyorder-' + label)
+            orders += [('shuffled-%d' % k, lambda r, sub=sub: sub.sample(r, len(r))) for k in range(ctx.size(1, 4))]
+        base = None
+        nmax = 0
+        for oname, pick in orders:
+            with ForceOrder(pick) as fo:
+                ans = ask(mk(), ('complete', line, col))
+            nmax = max([nmax] + fo.sizes)
+            if base is None:
+                base = ans
+            elif not same_answer(ctx, 'keyorder', (src, line, col), base, ans):
+                ctx.fail('keyorder', 'completions depend on the iteration order of the set of inferred values: '
+                         + classify(base, ans, 'complete'), case, expected=base,
+                         observed={'difference': classify(base, ans, 'complete'), 'order': oname, 'answer': ans},
+                         how=KEYORDER_HOW)
+                break
+        # asked again on fresh Scripts: other object addresses
+        for k in range(ctx.size(2, 4)):
+            junk.append([object() for _ in range(rng.randint(1, 5000))])
+            ans = ask(mk(), ('complete', line, col))
+            if not same_answer(ctx, 'keyorder', (src, line, col, k), base, ans):
+                ctx.fail('keyorder', 'completions differ between two fresh Scripts of one process: '
+                         + classify(base, ans, 'complete'), case, expected=base,
+                         observed={'difference': classify(base, ans, 'complete'), 'order': 'as the set iterates',
+                                   'answer': ans}, how=KEYORDER_HOW)
+                break
+        nkeys = len([t for t in base[1] if t[4] == 'string']) if base and base[0] == 'ok' else 0
+        ctx.count('keyorder', (src, line, col), nontrivial=nmax > 1 and nkeys > 1,
+                  bucket='%s/typed=%s/dicts=%d/keys=%d' % (spec['shape'], spec['typed'] or 'nothing', min(nmax, 4), min(nkeys, 3)),
+                  sample={'label': label, 'line': line, 'column': col, 'source': src, 'answer': short(base, 300)})
+        # ... and on one Script, other queries in between (quick: every second program)
+        nprog = getattr(stream_keyorder, '_n', 0)
+        stream_keyorder._n = nprog + 1
+        if ctx.quick and nprog % 2:
+            continue
+        nlines = src.count('\n') + 1
+        q = ('complete', line, col)
+        others = [('infer', line, max(col - len(spec['typed']) - 2, 0)), ('complete', nlines + 5, 0),
+                  ('get_signatures', line, col), ('goto', 1, 2), ('help', line, 900)]
+        sessions = [[q, rng.choice(others), q], [rng.choice(others), q, rng.choice(others), rng.choice(others), q]]
+        run_sessions(ctx, 'session', label, src, sessions, Fresh(src, mk), [], cap, probed,
+                     extra_case={'empty_project': True}, mk=mk)
+
+
 # ----------------------------------------------------------------- stream: subproc
 
 CHILD = r'''
@@ -905,6 +1103,9 @@ def stream_subproc(ctx, pcache):
     for label, src, queries in dyn:
         for (kind, fn, l, c) in queries:
             cases.append((src, 'infer', l, c))
+    # completions out of a union of inferred values: subscript completion on several dicts
+    for label, spec, src, (line, col) in dictkey_programs(ctx.subrng('subproc-dictkeys'), ctx.size(10, 150)):
+        cases.append((src, 'complete', line, col))
     for label, src, positions in progs:
         if len(positions) > 2:
             positions = rng.sample(positions, 2 if ctx.quick else min(len(positions), 6))
@@ -1559,6 +1760,12 @@ def compare(ctx, cases, answers):
             c = key[1]
             ctx.count('memoreplay', c, nontrivial=len(c['reads']) > 1 and c['n'] > 0,
                       bucket='%s/reads=%d' % (c['kind'], len(c['reads'])), sample={'case': c, 'reads_see': impl})
+        elif stream == 'dictkeys':
+            c = key[1]
+            nd = len([d for d in c['dicts'] if d['array_type'] == 'dict'])
+            ctx.count('dictkeys', c, nontrivial=nd > 1 and len(impl) > 1,
+                      bucket='dicts=%d/completions=%d/literal=%s' % (min(nd, 3), min(len(impl), 3), c['literal_string'] or 'none'),
+                      sample={'case': c, 'completions': impl})
         elif stream == 'memostack':
             c = key[1]
             ctx.count('memostack', c, nontrivial=True, bucket='replayable=%s/one_shot=%s' % (impl, c['one_shot']),
@@ -1608,10 +1815,12 @@ def run(ctx):
     cases += timed('sort', stream_sort, ctx, reqs)
     cases += timed('machine', stream_machine, ctx, reqs, cap, factor)
     cases += timed('memoreplay', stream_memoreplay, ctx, reqs)
+    cases += timed('dictkeys', stream_dictkeys, ctx, reqs)
     with PrivateCache() as pcache, SearchHook():
         budget = timed('budget-start', BudgetRun, ctx, pcache)
         timed('eqclass', stream_eqclass, ctx)
         timed('order', stream_order, ctx)
+        timed('keyorder', stream_keyorder, ctx, cap, pcache)
         timed('session', stream_session, ctx, cap)
         timed('dynsession', stream_dynsession, ctx, cap)
         timed('memosession', stream_memosession, ctx, cap, pcache)
@@ -1652,6 +1861,10 @@ def run(ctx):
         'makes; which executions a query makes depends on the memo (a warm memo saves executions), which is not '
         'modelled - stream budget compares real answers, and the two ways this shows on the unchanged jedi are the '
         'known findings C16-single-query-over-budget-memoised / C16-same-named-completion-representative',
+        'dict key completions: a key is modelled by repr(key); isinstance(key, (str, bytes)) is read off the repr '
+        '(true for the safe values str, bytes, numbers, bool, None - stream dictkeys generates all of them); \\w of the '
+        'prefix regex is modelled on ASCII + Latin-1 letters; which values the expression before the bracket is inferred '
+        'to is not modelled (stream keyorder / subproc run the real complete())',
         'flow_analysis_enabled / is_analysis blocks are inline try/finally statements (no callable primitive): '
         'checked by fault injection on real queries (stream fault), not by the machine correspondence',
     ]
@@ -1663,9 +1876,10 @@ def replay(ctx, payload):
     if 'session' in inp:
         with PrivateCache() as pcache, SearchHook():
             mk = lambda: jedi.Script(inp['source'])
-            if inp.get('family'):
-                # stream budget: the Script lives in an empty project
+            if inp.get('family') or inp.get('empty_project'):
+                # stream budget / keyorder: the Script lives in an empty project
                 mk = EmptyProject(pcache.dir, inp['source'])
+            if inp.get('family'):
                 BlockedHook.install()
             if inp.get('files'):
                 # a c16_memo program: its files in a directory of their own, main.py given as text
@@ -1691,10 +1905,20 @@ def replay(ctx, payload):
                 ndiff += a != f
             print('%d of %d answers differ from the answer of a fresh Script' % (ndiff, len(inp['session'])))
     elif 'query' in inp:
-        for name, pick in (('sorted', lambda r: sorted(r, key=stable_key)),
-                           ('reversed', lambda r: sorted(r, key=stable_key)[::-1])):
-            with ForceOrder(pick):
-                print(name, run_query(jedi.Script(inp['source']), inp['query'], inp['line'], inp['column']))
+        with PrivateCache() as pcache:
+            mk = EmptyProject(pcache.dir, inp['source']) if inp.get('empty_project') else (lambda: jedi.Script(inp['source']))
+            for name, pick in (('sorted', lambda r: sorted(r, key=stable_key)),
+                               ('reversed', lambda r: sorted(r, key=stable_key)[::-1])):
+                with ForceOrder(pick):
+                    print('values iterated in order %-9s' % name,
+                          short(run_query(mk(), inp['query'], inp['line'], inp['column']), 600))
+            for k in range(3):
+                print('fresh Script, no hook       ', short(run_query(mk(), inp['query'], inp['line'], inp['column']), 600))
+    elif 'dicts' in inp:
+        back = lambda ds: [{'array_type': d['array_type'],
+                            'keys': [None if k is None else [eval(k, {})] for k in d['keys']]} for d in ds]
+        for name in ('dicts', 'other_order'):
+            print('%-12s' % name, real_dict_completions(inp['literal_string'], inp['cut_end_quote'], back(inp[name])))
     else:
         print('input:', inp)
     print('expected:', payload.get('expected'), 'observed at record time:', payload.get('observed'))
